@@ -11,6 +11,8 @@ Decides (the release path exists and runs on every iteration; not the bound itse
   R17.2 the guarding constants are on (STREAM_STAGE_DROP, READ_BLOCK_LOOKBACK_DROP) and every
         streamed decoder named by the property (Bz2, Gz, Lz4) drops the previous block after storing
         a new one.
+  R17.3 every container field of the three readers that owns file data (elements holding an Arc) has
+        a removal reachable from drop_data_try.
 Does not decide: the actual bound, Arc reference counts at run time (a failed try_unwrap silently
 keeps data; this is why the channel capacity matters), the logarithmic term of the binary search.
 """
@@ -164,6 +166,36 @@ def run(prog, rep, tier):
         rep.examined(R172, BR + "::" + r, sample={"reader": r, "drop_block_after_store": ok, "inside_decode_loop": inloop})
         if not ok or not inloop:
             rep.violation(R172, BR + "::" + r, "%s does not drop the previously decoded block after storing a new one; a streamed file would be held in memory whole" % r)
+
+    # ------------------------------------------------------------ R17.3
+    R173 = rep.rule("R17.3", "every container that owns file data is emptied on the release path")
+    structs = [BR, LR, SR]
+    reach = prog.reachable_fns([SP + "::drop_data_try"])
+    for st in structs:
+        a = prog.facts.adts.get(st)
+        if not a:
+            raise CheckerError("anchor missing: " + st)
+        for fl in a["variants"][0]["fields"]:
+            t = fl["ty"]
+            is_container = any(k in t for k in ("Map<", "Set<", "Vec<", "LruCache<", "LinkedList<", "VecDeque<"))
+            owns = "std::sync::Arc<" in t
+            if not (is_container and owns):
+                continue
+            removers = []
+            for p_ in sorted(reach):
+                bd = prog.body(p_, required=False)
+                if bd is None or not p_.startswith(st + "::"):
+                    continue
+                for c in bd.live_calls():
+                    if c.d.split("::")[-1] in ("remove", "pop", "pop_entry", "remove_entry", "clear", "pop_first", "pop_last", "retain") and c.args:
+                        for o in bd.origins(c.args[0]):
+                            if o[0] == "arg" and o[1] == 1 and fl["name"] in o[2]:
+                                removers.append("%s:%s" % (p_.split("::")[-1], c.d.split("::")[-1]))
+            inst = "%s.%s" % (st.split("::")[-1], fl["name"])
+            rep.examined(R173, inst, sample={"container": inst, "type": t[:90], "released_by": sorted(set(removers))})
+            if not removers:
+                rep.violation(R173, inst, "%s (%s) owns file data but nothing reachable from drop_data_try ever removes entries from it; it grows with the file" % (inst, t[:80]))
+    rep.floor(R173, 5)
 
     return rep.finish(
         "Static necessary-condition check that the release path exists and runs: every way round the streaming loop after sending a non-last "
